@@ -450,6 +450,7 @@ class Cache:
         self._timeout = 0  # Manually handle retries during initialization.
         self._local = threading.local()
         self._txn_id = None
+        self._txn_files = ([], [])
 
         if not op.isdir(directory):
             try:
@@ -717,13 +718,15 @@ class Cache:
     @cl.contextmanager
     def _transact(self, retry=False, filename=None):
         sql = self._sql
-        filenames = []
         _disk_remove = self._disk.remove
         tid = threading.get_ident()
         txn_id = self._txn_id
 
         if tid == txn_id:
             begin = False
+            # Nested in a transaction of this thread: files are removed by
+            # the outermost transaction once it has committed or rolled back.
+            filenames, created = self._txn_files
         else:
             while True:
                 try:
@@ -738,6 +741,11 @@ class Cache:
                         _disk_remove(filename)
                     raise Timeout from None
 
+            filenames, created = self._txn_files = ([], [])
+
+        if filename is not None:
+            created.append(filename)
+
         try:
             yield sql, filenames.append
         except BaseException:
@@ -745,17 +753,25 @@ class Cache:
                 assert self._txn_id == tid
                 self._txn_id = None
                 sql('ROLLBACK')
-                if filename is not None:
-                    _disk_remove(filename)
+                for name in created:
+                    _disk_remove(name)
             raise
         else:
             if begin:
                 assert self._txn_id == tid
                 self._txn_id = None
                 sql('COMMIT')
-            for name in filenames:
-                if name is not None:
-                    _disk_remove(name)
+                for name in filenames:
+                    if name is not None:
+                        _disk_remove(name)
+
+    def _remove_after_transaction(self, filename):
+        """Remove the value file of a deleted row: at once, or when the
+        transaction this thread is inside of has committed."""
+        if self._txn_id == threading.get_ident():
+            self._txn_files[0].append(filename)
+        else:
+            self._disk.remove(filename)
 
     def set(self, key, value, expire=None, read=False, tag=None, retry=False):
         """Set `key` and `value` item in cache.
@@ -1333,7 +1349,7 @@ class Cache:
             return default
         finally:
             if filename is not None:
-                self._disk.remove(filename)
+                self._remove_after_transaction(filename)
 
         if expire_time and tag:
             return value, db_expire_time, db_tag
@@ -1602,7 +1618,7 @@ class Cache:
                 continue
             finally:
                 if name is not None:
-                    self._disk.remove(name)
+                    self._remove_after_transaction(name)
             break
 
         if expire_time and tag:
